@@ -21,7 +21,6 @@ package main
 import (
 	"context"
 	"fmt"
-	"math"
 	"math/rand"
 	"strconv"
 	"strings"
@@ -433,19 +432,19 @@ func gbehFail(class, id int, aware bool) beh {
 	return b
 }
 
-// gadapterCases: exhaustive over 0..2 members (thorough: 0..3) x trait x RPC x strategy x ok/fail vector x
+// gadapterCases: exhaustive over 0..3 members (Pull with 3 members: thorough only) x trait x RPC x strategy x ok/fail vector x
 // completion order x caller cancellation point (never / after k completions), every member
 // cancellation-aware (it reports its context's error when it finds it cancelled, as a device call does);
 // plus random cases with up to 4 members, mixed awareness, error classes and values.
 func gadapterCases(f lib.Flags, rng *rand.Rand) []gcase {
 	var out []gcase
-	top := 2
-	if f.Thorough() {
-		top = 3
-	}
+	top := 3
 	for n := 0; n <= top; n++ {
 		for _, tr := range []string{"light", "onoff"} {
 			for _, rpc := range []string{"Get", "Update", "Pull"} {
+				if n == 3 && rpc == "Pull" && !f.Thorough() {
+					continue
+				}
 				for _, st := range adapterStrats {
 					for bits := 0; bits < 1<<n; bits++ {
 						if rpc == "Pull" && bits != 1<<n-1 {
@@ -511,7 +510,7 @@ func gadapterCases(f lib.Flags, rng *rand.Rand) []gcase {
 func runGatedAdapters(f lib.Flags, res *lib.Result, drv *lib.Driver, rng *rand.Rand) {
 	tie := res.Tie("group-adapters-gated", "K4",
 		"lightpb.Group and onoffpb.Group x {Get, Update, Pull} x the six strategies over GATED members (a scripted traits client whose per-member call waits for its gate, "+
-			"then answers or - being cancellation-aware - reports its context's error): EXHAUSTIVE for 0..2 members (thorough: 0..3) x every ok/fail vector (Pull: streams end with an error) "+
+			"then answers or - being cancellation-aware - reports its context's error): EXHAUSTIVE for 0..3 members (Pull: 0..2, thorough 0..3) x every ok/fail vector (Pull: streams end with an error) "+
 			"x every completion order x caller cancellation never / after each number of completions; plus random cases with 1..4 members, mixed awareness, every error class, random values. "+
 			"model = driver op `group`: the thread-level model of Execute under the same serial schedule + the Lean model of the adapter's reducer; compared: value returned (Pull: last value forwarded), "+
 			"which error, return point, the members' context state at every observation point (x = members of one call run under different contexts), what each member saw, which were started, goroutines left. "+
@@ -609,4 +608,3 @@ func runGatedAdapters(f lib.Flags, res *lib.Result, drv *lib.Driver, rng *rand.R
 	}
 }
 
-var _ = math.Abs
